@@ -1,11 +1,11 @@
 """C03 — NextStrategy::index (src/block/next_strategy.rs): the routing index allowed by each connection kind."""
-import os, sys
+import os, re, sys
 sys.path.insert(0, os.path.dirname(os.path.dirname(__file__)))
 import std_specs as S
 import shared as SH
 
 PROPERTIES = ["C03"]
-MIN_VERIFIED = 1
+MIN_VERIFIED = 2
 F = 'src/block/next_strategy.rs'
 ASSUMPTIONS = [
     "R-RNG: nanorand tls_rng().generate() returns an arbitrary usize (external_body model, no postcondition)",
@@ -48,6 +48,15 @@ where
 }
 '''
 
+from engine.rsx import ScanError as S_ScanError  # noqa: E402
+GB_PRELUDE = r'''
+use std::hash::Hash;
+// crate::block::group_by_hash: wyhash with a literal seed - a fixed function of the key (read, not verified)
+uninterp spec fn key_hash<T>(k: T) -> u64;
+#[verifier::external_body]
+fn group_by_hash<T: Hash>(item: &T) -> (r: u64) ensures r == key_hash(*item) { unimplemented!() }
+'''
+
 def build(x):
     e = x.enum(F, 'NextStrategy')
     e.text = '#[verifier::reject_recursive_types(Out)]\n#[verifier::reject_recursive_types(IndexFn)]\n' + e.text
@@ -57,4 +66,19 @@ def build(x):
         ensures ''' + SH.INDEX_ENSURES + ''',   // #obl:index.allowed_by_connection_kind
                 (self is OnlyOne || self is All) ==> r == 0,   // #obl:index.forward_and_broadcast_use_zero
 ''')
-    return [PRELUDE, e, "impl<Out: ExchangeData, IndexFn> NextStrategy<Out, IndexFn>\nwhere\n    IndexFn: KeyerFn<u64, Out>,\n{", ix, "}"]
+    # the index function built by NextStrategy::group_by: the closure expression, byte for byte, applied to an arbitrary element
+    gb = x.method(F, 'NextStrategy', 'group_by')
+    mm = re.search(r'NextStrategy::GroupBy\(\s*(move \|\w+: &Out\| [^\n]*?),\s*\n', gb.text)
+    if mm is None:
+        raise S_ScanError('NextStrategy::group_by: closure expression of the GroupBy variant not found')
+    closure = mm.group(1)
+    gb.text = ("fn group_by_index<Out: ExchangeData, Key: Hash, Keyer: KeyerFn<Key, Out>>(keyer: Keyer, probe: &Out) -> (h: u64)\n"
+               "        requires forall|m: &Out| keyer.requires((m,)),\n"
+               "        // the routing function of EVERY group-by connection built by NextStrategy::group_by is the crate-wide key hash of the\n"
+               "        // element's key: equal keys from any producer, and from both inputs of a join, get the same index\n"
+               "        ensures exists|k: Key| keyer.ensures((probe,), k) && h == key_hash(k),   // #obl:group_by.index_is_the_crate_wide_hash_of_the_key\n"
+               "{\n    let f = " + closure + ";\n    f(probe)\n}\n")
+    gb.note('V-BLOCK', 1, 'the closure expression passed to NextStrategy::GroupBy in NextStrategy::group_by, extracted byte for byte, bound to a local and applied to an arbitrary element (return-position `impl Trait` is not supported by Verus)')
+    gb.sub('V-CLOSURE', r'move \|(\w+): &Out\| (.*);\n', r'move |\1: &Out| -> (h: u64) requires keyer.requires((\1,)) ensures exists|k: Key| keyer.ensures((\1,), k) && h == key_hash(k) { \2 };\n',
+           detail='closure of NextStrategy::group_by: named result, requires/ensures added; body verbatim', must=True)
+    return [PRELUDE, GB_PRELUDE, e, "impl<Out: ExchangeData, IndexFn> NextStrategy<Out, IndexFn>\nwhere\n    IndexFn: KeyerFn<u64, Out>,\n{", ix, "}", gb]
